@@ -367,6 +367,9 @@ EXPORT wchar_t *_wcstok_s_chk(wchar_t *restrict dest, rsize_t *restrict dmaxp,
         dlen--;
     }
 
+    /* the last token ends at the terminator: resume there, so that the
+       next call finds no further token */
+    *ptr = dest;
     *dmaxp = dlen;
     return (ptoken);
 }
